@@ -797,6 +797,9 @@ func classifyDeath(stderr []byte, timedOut bool) (string, string) {
 		if f := lockParkedFrame(s); f != "" {
 			return "wedged", f
 		}
+		if f := spinFrame(s); f != "" {
+			return "spinning", f
+		}
 		return "inconclusive", ""
 	}
 	switch {
@@ -810,6 +813,31 @@ func classifyDeath(stderr []byte, timedOut bool) (string, string) {
 		return "logfatal", frame
 	}
 	return "died", frame
+}
+
+// spinFrame: a goroutine that is running (not parked on anything) inside coredhcp code called from the harness,
+// in a dump taken after the whole stall period went by without the call returning: handling that does not
+// terminate. Returns the innermost coredhcp frame, "" if there is none.
+func spinFrame(s string) string {
+	for _, g := range strings.Split(s, "\n\n") {
+		head, _, _ := strings.Cut(g, "\n")
+		if !strings.HasPrefix(head, "goroutine ") || !(strings.Contains(head, "[running") || strings.Contains(head, "[runnable")) {
+			continue
+		}
+		for _, line := range strings.Split(g, "\n") {
+			if strings.HasPrefix(line, "verif/") || strings.HasPrefix(line, "main.") {
+				break // harness code on top: not inside the code under test
+			}
+			if strings.HasPrefix(line, "github.com/coredhcp/coredhcp/") {
+				f := line
+				if i := strings.LastIndex(f, "("); i > 0 {
+					f = f[:i]
+				}
+				return strings.TrimPrefix(f, "github.com/coredhcp/coredhcp/")
+			}
+		}
+	}
+	return ""
 }
 
 func firstRepoFrame(s string) string {
